@@ -166,6 +166,16 @@ theorem csr_profile (p : CertParams) (s : PubKey) (attrs : List Attribute) :
     simp [csrInfo, Asn1.intOfNat, Asn1.implicit, Asn1.setOf, h0]
   · unfold csrAttributes; split <;> simp
 
+/-- ... and the subject alternative name a *request* asks for follows the same rule as the one a
+    certificate carries: it is among the requested extensions, once, critical exactly when the
+    request's subject is empty (the harness reads this clause off every real request) -/
+theorem csr_san_critical_iff_subject_empty (p : CertParams) (h : p.sans ≠ []) :
+    ∃ e, sanExt p = [e] ∧ e ∈ requestedExtensions p ∧ isCritical e = p.dn.entries.isEmpty := by
+  obtain ⟨e, he, hc⟩ := san_critical_iff_subject_empty p h
+  refine ⟨e, he, ?_, hc⟩
+  unfold requestedExtensions
+  simp [he]
+
 /-! non-vacuity -/
 example : isCritical (extNode [2, 5, 29, 19] true []) = true := by decide
 
